@@ -163,6 +163,10 @@ func (t *ttlMemCache) set(key string, value []byte, fns ...SetOptFn) error {
 		fn(o)
 	}
 	var ele, ok = t.eleHash[key]
+	if ok && now() > ele.Value.(*ttlNode).deadline {
+		t.remove(ele, ele.Value.(*ttlNode))
+		ok = false
+	}
 	if ok {
 		if o.mustNotExist {
 			return ErrTTLKeyExists
